@@ -63,6 +63,11 @@ pub fn plan_for(prop: &str, tier: Tier) -> Option<PropPlan> {
                 Plan { shape: Shape::History, groups: G_LAYOUT | G_BACKEND | G_CONSTRAINT, random: Some((hc, ho)), spec: spec("C03", OPS_C01 | OPS_C02, MON_OWN, l) },
             ],
         }),
+        "C04" => Some(PropPlan {
+            rule: "case = (ordered pair (vector element type A, offered/requested type B) from {u64, i64, f64, [u8;8], usize, u32, (), a second ZST, String, two tracked types with one layout}, vector length 0..=3, one of 22 checked entry points (push/insert of wrapper and raw values, splice with the j-th of k raw items foreign, swap for 6 handle pairings, vector/element/handle/wrapper/raw/lazy-clone downcasts, push of a removal handle of another vector, typeid/layout/size reports), index); oracle: A != B => panic or None with the vector unchanged (valid after splice) and the rejected tracked value destroyed once; A == B => success with the Vec-model contents; non-trivial = types differ but share size and alignment, or a handle downcast/swap; distinct = distinct (pair, pick sequence)",
+            bound: "exhaustive: 121 ordered type pairs x len 0..=3 x 22 entry points x all indices".to_string(),
+            plans: vec![Plan { shape: Shape::Grid, groups: G_PAIRS, random: None, spec: spec("C04", 0, MON_MODEL, 3) }],
+        }),
         "C05" => Some(PropPlan {
             rule: "case = C01/C02/C08/C10 operation instances and histories run on the instrumented user-defined backends (guard zones, poison, relocate on every capacity change, quarantine) and on Heap under the instrumented global allocator; monitors: guard zones, quarantined blocks still poisoned, visible slots never poison/dead, backend lifecycle (build once with the element layout, never resized below live length, released once after elements); non-trivial = any operation that changes the sequence or the capacity; distinct = distinct (configuration, pick sequence)",
             bound: format!("exhaustive one-step for len<={}; proptest {} histories x <= {} ops per configuration", l, hc, ho),
